@@ -193,6 +193,44 @@ extern "C" void harness(void)
     vf_poke(*e1->sequences, 0, 2, 0);
   }
   VCLAIM(14, !e1->is_linked() && !e2->is_linked() && vf_nreports == 0, "C14.expectations_detached_when_the_new_object_dies");
+#elif VF_SCENE == 14   /* a sequenced NAMED expectation outlives its mock: it stays registered, blocks completion, and is listed at teardown */
+  auto *pm = new M;
+  auto *s = new trompeloeil::sequence;
+#line 440
+  auto e0 = NAMED_REQUIRE_CALL(*pm, f(0)).IN_SEQUENCE(*s).TIMES(AT_LEAST(0)).RETURN(rv);
+#line 450
+  auto e1 = NAMED_REQUIRE_CALL(*pm, f(1)).IN_SEQUENCE(*s).RETURN(rv2);
+  unsigned w0 = vf_needle("*pm.f(0)"), w1 = vf_needle("*pm.f(1)"), wpend = vf_needle("Pending expectation on destroyed mock object"),
+           wseq = vf_needle("Sequence expectations not met at destruction of sequence object \"");
+  (void)wpend;
+  VCLAIM(6, !s->is_completed(), "C06.setup_incomplete");
+  delete pm;                                       // e1 is unfulfilled: one non-fatal report; e0 is satisfied: silent
+  VCLAIM(6, vf_nreports == 1 && !vf_last.fatal && vf_last.line == 450, "C06.setup_mock_death_reports_the_unfulfilled_expectation");
+  VCLAIM(6, !s->is_completed(), "C06.expectation_that_outlives_its_mock_still_blocks_completion");
+  VCLAIM(6, e0->is_satisfied() && !e1->is_satisfied(), "C06.flags_unchanged_by_mock_death");
+  delete s;
+  VCLAIM(6, vf_nreports == 2 && !vf_last.fatal && (vf_last.mask & wseq), "C06.teardown_reports_once");
+  VCLAIM(6, (vf_last.mask & w0) && (vf_last.mask & w1), "C06.teardown_lists_expectations_that_outlived_their_mock");
+  e0.reset(); e1.reset();
+  VCLAIM(4, vf_nreports == 2, "C04.no_second_report_for_an_expectation_already_named");
+#elif VF_SCENE == 15   /* RT_TIMES(0) in a sequence: wherever it stands in line, a matching call is a forbidden-call report */
+  M m;
+  trompeloeil::sequence s;
+  size_t zero = 0;
+#line 460
+  auto e0 = NAMED_REQUIRE_CALL(m, f(0)).IN_SEQUENCE(s).RETURN(rv);
+#line 470
+  auto ef = NAMED_REQUIRE_CALL(m, f(5)).RT_TIMES(zero).IN_SEQUENCE(s).LR_SIDE_EFFECT(++effects).RETURN(rv2);
+  unsigned wforb = vf_needle("Match of forbidden call of "), wseqm = vf_needle("Sequence mismatch for sequence \""), wparam = vf_needle("  param ");
+  bool t = false; try { m.f(5); } catch (vf_reported &) { t = true; }
+  VCLAIM(7, t && vf_nreports == 1 && vf_last.fatal, "C07.forbidden_sequenced_expectation_behind_a_pending_predecessor_is_one_fatal_report");
+  VCLAIM(7, (vf_last.mask & wforb) && !(vf_last.mask & wseqm), "C07.report_is_the_forbidden_call_report_not_a_sequence_mismatch");
+  VCLAIM(7, vf_last.line == 470 && (vf_last.mask & wparam), "C07.forbidden_report_carries_location_and_arguments");
+  VCLAIM(7, effects == 0 && vf_nok == 0 && ef->is_satisfied() && ef->is_saturated(), "C07.nothing_runs_and_it_stays_satisfied_and_saturated");
+  VCLAIM(7, m.f(0) == rv && vf_nreports == 1, "C07.predecessor_still_callable");
+  t = false; try { m.f(5); } catch (vf_reported &) { t = true; }
+  VCLAIM(7, t && vf_nreports == 2 && vf_last.fatal && (vf_last.mask & wforb) && vf_last.line == 470, "C07.forbidden_again_when_first_in_line");
+  VCLAIM(7, effects == 0 && vf_nok == 1, "C07.nothing_runs_second_time");
 #elif VF_SCENE == 12   /* multiplicity written BEFORE IN_SEQUENCE: the limits survive the switch to a sequenced handler, also for L == 1 */
   M m;
   trompeloeil::sequence s1, s2;
